@@ -61,7 +61,8 @@ def parseCall (s : String) : Option Call :=
   | ["data"] => some .data
   | ["lmtpdata"] => some .lmtpData
   | ["write", b] => some (.write (bytesOfHex b))
-  | ["close"] => some .close
+  | ["close"] => some (.close none)
+  | ["close", k] => some (.close (some (Conv.natOf k)))
   | "auth" :: mech :: ir :: rest =>
     let steps := match rest with
       | [st] => if st == "" then [] else (st.splitOn "+").map fun x =>
